@@ -46,6 +46,7 @@ type Config struct {
 	SampleModels int `json:"sample_models"`
 	Preempt      int `json:"preempt"`
 	TimeBudgetS  int `json:"time_budget_s"`
+	SampleEvery  int `json:"sample_every"`
 }
 
 func (c *Config) isUnderTest(path string) bool {
@@ -426,7 +427,12 @@ func worker(p *Program, cfg *Config, ex *Explorer, hp *ssa.Package, hfn *ssa.Fun
 			outcome = "violation"
 		case "ok":
 			ex.mu.Lock()
-			want := ex.passModels < ex.Lim.SampleModels
+			ex.okSeen++
+			every := cfg.SampleEvery
+			if every <= 0 {
+				every = 1
+			}
+			want := ex.passModels < ex.Lim.SampleModels && (ex.okSeen-1)%every == 0
 			if want {
 				ex.passModels++
 			}
@@ -434,7 +440,7 @@ func worker(p *Program, cfg *Config, ex *Explorer, hp *ssa.Package, hfn *ssa.Fun
 			if want {
 				vals, r := ps.model(nil)
 				if r == "sat" {
-					ps.summary = &PathSummary{Decisions: ps.taken, Events: ps.events, Values: vals, Choices: ps.choicesCopy(), Instrs: ps.instrs, Asserts: ps.oblig}
+					ps.summary = &PathSummary{Decisions: ps.taken, Events: ps.events, Reach: sortedKeys(ps.reach), Values: vals, Choices: ps.choicesCopy(), Instrs: ps.instrs, Asserts: ps.oblig}
 				}
 			}
 		}
